@@ -16,6 +16,8 @@ Directives (each on its own line):
       //@@loop <n> [iter=<ident>]       following lines are the loop's invariant/decreases clauses
       //@@at <before|after|bodystart> "<anchor text>"    following lines are inserted there (proof blocks)
       //@@rewrite "<from>" => "<to>"    listed textual rewrite of the body (reported in evidence)
+      //@@finding <ID>                following lines (a `proof { assume(..); }`) are inserted at body start ONLY in
+                                      the 'restricted' run of a known finding (DESIGN.md 1.4)
   //@end
 
 Fixed rewrite rules applied to every copied item (DESIGN.md section 1.1):
@@ -634,7 +636,7 @@ def parse_kv(tokens):
     return kv, flags
 
 
-def process_template(template_path, repo_root, include_dirs=()):
+def process_template(template_path, repo_root, include_dirs=(), restrict=()):
     """returns (text, info) ; info['items'] list, info['fn_lines'] name->(start,end) line ranges in output."""
     repo = Repo(repo_root)
     items = []
@@ -661,7 +663,7 @@ def process_template(template_path, repo_root, include_dirs=()):
                     break
             if not found:
                 raise ExtractError("include not found: %s" % fname)
-            sub_text, sub_info = process_template(found, repo_root, include_dirs)
+            sub_text, sub_info = process_template(found, repo_root, include_dirs, restrict)
             base = len(out_lines)
             emit(sub_text)
             items.extend(sub_info['items'])
@@ -714,6 +716,7 @@ def process_template(template_path, repo_root, include_dirs=()):
             loops = {}
             ats = []
             rewrites = []
+            findings_seen = []
             cur = contract
             i += 1
             while i < n and lines[i].strip() != '//@end':
@@ -730,6 +733,13 @@ def process_template(template_path, repo_root, include_dirs=()):
                         raise ExtractError("bad //@@at line: %s" % t)
                     buf = []
                     ats.append((mm.group(1), mm.group(2), buf))
+                    cur = buf
+                elif t.startswith('//@@finding'):
+                    fid = t.split()[1]
+                    buf = []
+                    if fid in restrict:
+                        ats.append(('bodystart', None, buf))
+                    findings_seen.append(fid)
                     cur = buf
                 elif t.startswith('//@@rewrite'):
                     mm = re.match(r'//@@rewrite\s+"(.*)"\s*=>\s*"(.*)"\s*$', t)
@@ -749,6 +759,8 @@ def process_template(template_path, repo_root, include_dirs=()):
                             ret_name=kv.get('ret', 'r'), impl_header=impl_header, info=items,
                             props=kv.get('props', '').split(',') if kv.get('props') else []))
             fn_ranges[qual] = (start, len(out_lines))
+            if findings_seen:
+                items[-1]['findings'] = findings_seen
             continue
         if s.startswith('//@') and not s.startswith('//@@'):
             raise ExtractError("unknown directive: %s" % s)
